@@ -538,5 +538,42 @@ def r16_10(ctx):
     return r
 
 
+def r16_11(ctx):
+    """'candidate lines survive an SDP round trip' - also lines written by others: RFC 8839 makes the transport token
+    case-insensitive, RFC 6544's own examples (and Firefox) write `TCP`. from_sdp lower-cases the token it stores; every
+    DECISION it takes on the token has to be taken on the same normalised value, or `TCP ... tcptype active` parses to a
+    tcp candidate without its tcptype (and upper / lower case spellings of one line parse to different candidates).
+    Decided: every comparison of the candidate line's transport token with a literal in IceCandidate::from_sdp is made on
+    the lower-cased (or case-insensitively compared) token."""
+    r = RuleResult("R16.11", "K6/dataflow", "candidate-line parsing decides on the case-normalised transport token")
+    fn = "transports::ice::IceCandidate::from_sdp"
+    fam = [nb for nb in ctx.facts.all_bodies() if nb.name == fn or nb.name.startswith(fn + "::{closure")]
+    r.scope.append(fn)
+    n = 0
+    for b in fam:
+        for bi, t, p in b.calls():
+            if not p or bi in b.cleanup or len(t["a"]) != 2:
+                continue
+            if not ("PartialEq" in p or p.endswith("eq_ignore_ascii_case")):
+                continue
+            ops = [b.term_operand(a) for a in t["a"]]
+            lit = [o for o in ops if o[0] == "const" and isinstance(o[2] if len(o) > 2 else None, str) and o[2].strip('"').lower() in ("tcp", "udp")]
+            if not lit:
+                lit = [o for o in ops if mir.show(o, 20).strip('"').lower() in ("tcp", "udp")]
+            if not lit:
+                continue
+            n += 1
+            other = [o for o in ops if o not in lit]
+            norm = p.endswith("eq_ignore_ascii_case") or any(mir.has(o, lambda x: x[0] == "call" and x[1].endswith(("to_ascii_lowercase", "to_lowercase", "make_ascii_lowercase"))) for o in other)
+            if norm:
+                r.ok({"site": b.where(bi), "compares": "the lower-cased transport token"})
+            else:
+                r.violate(fn, "candidate:transport-case", b.where(bi),
+                          "the transport token of a candidate line is compared with %s as it was written: `TCP` (RFC 6544's own spelling) is "
+                          "stored as tcp but loses its tcptype" % mir.show(lit[0], 10))
+    r.need("comparisons of the transport token with a literal", n, 1)
+    return r
+
+
 def run(ctx):
-    return [r16_1(ctx), r16_2(ctx), r16_3(ctx), r16_4(ctx), r16_5(ctx), r16_6(ctx), r16_7(ctx), r16_8(ctx), r16_9(ctx), r16_10(ctx)]
+    return [r16_1(ctx), r16_2(ctx), r16_3(ctx), r16_4(ctx), r16_5(ctx), r16_6(ctx), r16_7(ctx), r16_8(ctx), r16_9(ctx), r16_10(ctx), r16_11(ctx)]
